@@ -17,7 +17,7 @@ func (p *Program) Clone() *Program {
 
 // Size is the measure minimisation decreases.
 func (p *Program) Size() int {
-	n := 0
+	n := len(p.Pool.Ints) + len(p.Pool.Rats) + len(p.Pool.Floats)
 	for _, ep := range p.Epochs {
 		n += 50
 		if ep.Mode != 0 {
@@ -34,6 +34,9 @@ func (p *Program) Size() int {
 		}
 		for _, t := range ep.Tasks {
 			n += 20
+			if !blankPriv(&t.Priv) {
+				n += 5
+			}
 			for _, op := range t.Ops {
 				n += 10 + 2*len(op.Pre)
 				if op.After != nil {
@@ -175,12 +178,36 @@ func Minimise(p *Program, still func(*Program) bool, budget int) (*Program, int)
 				}
 			}
 		}
-		// mode, stale private state
+		// mode, stale private state, shared pool
 		for ei := range cur.Epochs {
 			if cur.Epochs[ei].Mode != 0 {
 				c := cur.Clone()
 				c.Epochs[ei].Mode = 0
 				try(c)
+			}
+			for ti := range cur.Epochs[ei].Tasks {
+				if !blankPriv(&cur.Epochs[ei].Tasks[ti].Priv) {
+					c := cur.Clone()
+					setBlankPriv(&c.Epochs[ei].Tasks[ti].Priv)
+					try(c)
+				}
+			}
+		}
+		if len(cur.Pool.Ints) > 1 || len(cur.Pool.Rats) > 1 || len(cur.Pool.Floats) > 1 {
+			for _, keep := range []int{0, 1, 2} {
+				c := cur.Clone()
+				if keep < len(c.Pool.Ints) {
+					c.Pool.Ints = c.Pool.Ints[keep : keep+1]
+				}
+				if keep < len(c.Pool.Rats) {
+					c.Pool.Rats = c.Pool.Rats[keep : keep+1]
+				}
+				if keep < len(c.Pool.Floats) {
+					c.Pool.Floats = c.Pool.Floats[keep : keep+1]
+				}
+				if try(c) {
+					break
+				}
 			}
 		}
 		if cur.Size() >= before || tries >= budget {
@@ -188,4 +215,43 @@ func Minimise(p *Program, still func(*Program) bool, budget int) (*Program, int)
 		}
 	}
 	return cur, tries
+}
+
+func blankPriv(p *PrivSpec) bool {
+	for _, b := range p.Bufs {
+		if b.Data != "" || b.Cap != 0 {
+			return false
+		}
+	}
+	for _, i := range p.Ints {
+		if i != "0" {
+			return false
+		}
+	}
+	for _, r := range p.Recv {
+		if r != "00000000000000000000000000000000" {
+			return false
+		}
+	}
+	return true
+}
+
+// setBlankPriv replaces the stale contents of a task's long-lived objects by
+// empty buffers and zeros (the number of slots stays the same).
+func setBlankPriv(p *PrivSpec) {
+	for i := range p.Bufs {
+		p.Bufs[i] = BufSpec{}
+	}
+	for i := range p.Ints {
+		p.Ints[i] = "0"
+	}
+	for i := range p.Rats {
+		p.Rats[i] = "0"
+	}
+	for i := range p.Floats {
+		p.Floats[i] = FloatSpec{Prec: 64}
+	}
+	for i := range p.Recv {
+		p.Recv[i] = "00000000000000000000000000000000"
+	}
 }
